@@ -504,26 +504,32 @@ func c02r3(p *Program, r *Report) {
 		if e == nil || d == nil {
 			continue
 		}
-		items := encoderItems(p, e)
-		okE := len(items) == pr.width
-		for i, it := range items {
-			if it.IsConst || it.Shift != 8*(pr.width-1-i) || it.Base != items[0].Base {
-				okE = false
-			}
+		var retE ast.Expr
+		if rs, ok := e.Decl.Body.List[len(e.Decl.Body.List)-1].(*ast.ReturnStmt); ok && len(rs.Results) == 1 {
+			retE = rs.Results[0]
 		}
-		r.Check(okE, e.Decl, pr.enc+" writes "+fmt.Sprint(pr.width)+" bytes big-endian", fmt.Sprint(items), fmt.Sprintf("%s writes %v, not the %d-byte big-endian form", pr.enc, items, pr.width))
-		var reads []ByteRead
+		enc, okEnc := encodingOf(e.Pkg.TypesInfo, e.Decl.Body.List, retE)
+		if !okEnc {
+			r.Unresolved("%s: the encoder is neither byte-wise shifts nor an encoding/binary call", pr.enc)
+		} else {
+			r.Check(enc.BigEndian && enc.Width == pr.width, e.Decl, pr.enc+" writes "+fmt.Sprint(pr.width)+" bytes big-endian", fmt.Sprintf("%d bytes of %s (%s)", enc.Width, enc.Value, enc.How), fmt.Sprintf("%s writes %d bytes of %s, big-endian=%v (%s), not the %d-byte big-endian form", pr.enc, enc.Width, enc.Value, enc.BigEndian, enc.How, pr.width))
+		}
 		info := d.Pkg.TypesInfo
+		var dec fixedDecoding
+		okDec := false
 		ast.Inspect(d.Decl.Body, func(x ast.Node) bool {
 			if rs, ok := x.(*ast.ReturnStmt); ok && len(rs.Results) == 1 {
-				if t, ok := parseOrChain(info, rs.Results[0]); ok && len(t) > len(reads) {
-					reads = t
+				if dd, ok := decodingOf(info, rs.Results[0]); ok && dd.Width > dec.Width {
+					dec, okDec = dd, true
 				}
 			}
 			return true
 		})
-		lo, n, be := isBigEndian(reads)
-		r.Check(be && lo == 0 && n == pr.width, d.Decl, pr.dec+" reads "+fmt.Sprint(pr.width)+" bytes big-endian", fmt.Sprint(reads), fmt.Sprintf("%s reads %v, not the %d-byte big-endian form %s writes", pr.dec, reads, pr.width, pr.enc))
+		if !okDec {
+			r.Unresolved("%s: the decoder is neither a shift chain nor an encoding/binary call", pr.dec)
+		} else {
+			r.Check(dec.BigEndian && dec.Offset == 0 && dec.Width == pr.width, d.Decl, pr.dec+" reads "+fmt.Sprint(pr.width)+" bytes big-endian", fmt.Sprintf("%d bytes of %s (%s)", dec.Width, dec.Base, dec.How), fmt.Sprintf("%s reads %d bytes from offset %d, big-endian=%v (%s), not the %d-byte big-endian form %s writes", pr.dec, dec.Width, dec.Offset, dec.BigEndian, dec.How, pr.width, pr.enc))
+		}
 		// the decoder's length guard equals the width
 		okLen := false
 		ast.Inspect(d.Decl.Body, func(x ast.Node) bool {
@@ -538,77 +544,129 @@ func c02r3(p *Program, r *Report) {
 		})
 		r.Check(okLen, d.Decl, pr.dec+" accepts exactly "+fmt.Sprint(pr.width)+" bytes", "len != width -> zero", pr.dec+" does not require exactly the width "+pr.enc+" writes")
 	}
-	// collection sizes: same version predicate, same widths, big-endian
+	// collection sizes: per path of the writer and the reader (if/else, early return or switch form), the branch on
+	// the protocol version writes/reads a 4-byte signed big-endian size from protocol 3 and a 2-byte unsigned one before
 	w, rd := r.NeedFunc("writeCollectionSize"), r.NeedFunc("readCollectionSize")
 	if w != nil && rd != nil {
 		wi, ri := w.Pkg.TypesInfo, rd.Pkg.TypesInfo
-		wIf, _ := w.Decl.Body.List[0].(*ast.IfStmt)
-		rIf, _ := rd.Decl.Body.List[0].(*ast.IfStmt)
-		if wIf == nil || rIf == nil {
-			r.Unresolved("read/writeCollectionSize: version branch not found")
-			return
+		isV3Cond := func(c string) (bool, bool) { // (known form, true means "protocol >= 3")
+			c = strings.ReplaceAll(c, " ", "")
+			switch {
+			case strings.HasSuffix(c, ".proto>protoVersion2"), strings.HasSuffix(c, ".proto>=protoVersion3"):
+				return true, true
+			case strings.HasSuffix(c, ".proto<=protoVersion2"), strings.HasSuffix(c, ".proto<protoVersion3"):
+				return true, false
+			}
+			return false, false
 		}
-		r.Check(exprStr(wIf.Cond) == exprStr(rIf.Cond) && exprStr(wIf.Cond) == "info.proto > protoVersion2", wIf, "collection size width switches at the same protocol version in writer and reader", exprStr(wIf.Cond),
-			"writer branches on `"+exprStr(wIf.Cond)+"`, reader on `"+exprStr(rIf.Cond)+"`: the spec uses [int] sizes from protocol 3 and [short] before")
-		count := func(info *types.Info, blk *ast.BlockStmt) (items []ByteItem) {
-			for _, c := range callsIn(blk) {
-				if calleeName(info, c) == "bytes.(*Buffer).WriteByte" {
-					items = append(items, parseByteItem(info, c.Args[0]))
+		pathV3 := func(ap apath) (v3, known bool) {
+			for _, c := range ap.Conds {
+				if okForm, pos := isV3Cond(exprStr(ast.Unparen(c.Cond))); okForm {
+					return c.Val == pos, true
 				}
 			}
+			return false, false
+		}
+		wpaths, okW := enumPaths(w.Decl.Body.List)
+		rpaths, okR := enumPaths(rd.Decl.Body.List)
+		if !okW || !okR {
+			r.Unresolved("read/writeCollectionSize: too many paths")
 			return
 		}
-		chk := func(items []ByteItem, width int, what string, n ast.Node) {
-			ok := len(items) == width
-			for i, it := range items {
-				if it.Shift != 8*(width-1-i) || it.Base != "n" {
-					ok = false
-				}
+		seenW, seenR := map[bool]bool{}, map[bool]bool{}
+		for _, ap := range wpaths {
+			v3, known := pathV3(ap)
+			if ap.Ret == nil || len(ap.Ret.Results) != 1 || !isNil(wi, ap.Ret.Results[0]) {
+				continue // error return
 			}
-			r.Check(ok, n, "writeCollectionSize "+what, fmt.Sprint(items), fmt.Sprintf("writes %v, not a %d-byte big-endian size", items, width))
+			if !known {
+				r.Unresolved("writeCollectionSize: a success path does not branch on the protocol version")
+				continue
+			}
+			width := 2
+			if v3 {
+				width = 4
+			}
+			enc, okEnc := encodingOf(wi, ap.Stmts, nil)
+			if !okEnc {
+				r.Unresolved("writeCollectionSize: the size is neither written byte by byte nor through encoding/binary")
+				continue
+			}
+			seenW[v3] = true
+			nparam := paramObj(wi, w.Decl.Type, 1)
+			okVal := nparam != nil && enc.Value == nparam.Name()
+			r.Check(enc.BigEndian && enc.Width == width && okVal, ap.Ret, "writeCollectionSize protocol "+ifs(v3, ">= 3: 4 bytes big-endian", "<= 2: 2 bytes big-endian"), fmt.Sprintf("%d bytes of %s (%s)", enc.Width, enc.Value, enc.How), fmt.Sprintf("writes %d bytes of %s, big-endian=%v (%s), not the %d-byte big-endian size", enc.Width, enc.Value, enc.BigEndian, enc.How, width))
 		}
-		chk(count(wi, wIf.Body), 4, "protocol >= 3: 4 bytes big-endian", wIf.Body)
-		if eb, ok := wIf.Else.(*ast.BlockStmt); ok {
-			chk(count(wi, eb), 2, "protocol <= 2: 2 bytes big-endian", eb)
-		}
-		rchk := func(blk *ast.BlockStmt, width int, what string) {
-			var reads []ByteRead
-			readN := int64(-1)
-			for _, st := range blk.List {
-				if as, ok := st.(*ast.AssignStmt); ok && len(as.Lhs) == 1 {
-					switch exprStr(as.Lhs[0]) {
-					case "size":
-						reads, _ = parseOrChain(ri, as.Rhs[0])
-					case "read":
-						readN, _ = constInt(ri, as.Rhs[0])
+		for _, ap := range rpaths {
+			v3, known := pathV3(ap)
+			if ap.Ret != nil && len(ap.Ret.Results) == 3 && !isNil(ri, ap.Ret.Results[2]) {
+				continue // error return
+			}
+			if !known {
+				r.Unresolved("readCollectionSize: a success path does not branch on the protocol version")
+				continue
+			}
+			// the size and the number of bytes consumed: from the return values or the named results
+			var sizeE, readE ast.Expr
+			if ap.Ret != nil && len(ap.Ret.Results) == 3 {
+				sizeE, readE = ap.Ret.Results[0], ap.Ret.Results[1]
+			}
+			for _, st := range ap.Stmts {
+				if as, ok := st.(*ast.AssignStmt); ok && len(as.Lhs) == len(as.Rhs) {
+					for i, l := range as.Lhs {
+						switch exprStr(l) {
+						case "size":
+							if sizeE == nil || exprStr(sizeE) == "size" {
+								sizeE = as.Rhs[i]
+							}
+						case "read":
+							if readE == nil || exprStr(readE) == "read" {
+								readE = as.Rhs[i]
+							}
+						}
 					}
 				}
 			}
-			lo, n, be := isBigEndian(reads)
-			r.Check(be && lo == 0 && n == width && int(readN) == width, blk, "readCollectionSize "+what, fmt.Sprint(reads), fmt.Sprintf("reads %v and advances %d, not a %d-byte big-endian size", reads, readN, width))
-		}
-		rchk(rIf.Body, 4, "protocol >= 3: 4 bytes big-endian")
-		if eb, ok := rIf.Else.(*ast.BlockStmt); ok {
-			rchk(eb, 2, "protocol <= 2: 2 bytes big-endian")
-		}
-		// the 4-byte size is signed (null = -1), the 2-byte size unsigned
-		signed4, unsigned2 := false, false
-		ast.Inspect(rIf.Body, func(x ast.Node) bool {
-			if c, ok := x.(*ast.CallExpr); ok && exprStr(c.Fun) == "int32" {
-				signed4 = true
-			}
-			return true
-		})
-		if eb, ok := rIf.Else.(*ast.BlockStmt); ok {
-			unsigned2 = true
-			ast.Inspect(eb, func(x ast.Node) bool {
-				if c, ok := x.(*ast.CallExpr); ok && (exprStr(c.Fun) == "int16" || exprStr(c.Fun) == "int8") {
-					unsigned2 = false
+			// resolve a local holding the value
+			resolve := func(e ast.Expr) ast.Expr {
+				if id, ok := ast.Unparen(e).(*ast.Ident); ok {
+					for _, st := range ap.Stmts {
+						if as, ok := st.(*ast.AssignStmt); ok && len(as.Lhs) == len(as.Rhs) {
+							for i, l := range as.Lhs {
+								if exprStr(l) == id.Name {
+									return as.Rhs[i]
+								}
+							}
+						}
+					}
 				}
-				return true
-			})
+				return e
+			}
+			if sizeE == nil || readE == nil {
+				r.Unresolved("readCollectionSize: size / consumed count of a success path not found")
+				continue
+			}
+			sizeE, readE = resolve(sizeE), resolve(readE)
+			width := 2
+			if v3 {
+				width = 4
+			}
+			readN, _ := constInt(ri, readE)
+			dec, okDec := decodingOf(ri, sizeE)
+			if !okDec {
+				r.Unresolved("readCollectionSize: the size expression %s is neither a shift chain nor an encoding/binary call", exprStr(sizeE))
+				continue
+			}
+			seenR[v3] = true
+			signedOK := v3 && dec.Conv == "int32" || !v3 && dec.Conv != "int16" && dec.Conv != "int8"
+			r.Check(dec.BigEndian && dec.Offset == 0 && dec.Width == width && int(readN) == width, sizeE, "readCollectionSize protocol "+ifs(v3, ">= 3: 4 bytes big-endian", "<= 2: 2 bytes big-endian"), fmt.Sprintf("%d bytes (%s), advances %d", dec.Width, dec.How, readN), fmt.Sprintf("reads %d bytes big-endian=%v (%s) and advances %d, not a %d-byte big-endian size", dec.Width, dec.BigEndian, dec.How, readN, width))
+			r.Check(signedOK, sizeE, "readCollectionSize protocol "+ifs(v3, ">= 3: size is signed (-1 = null)", "<= 2: size is unsigned"), "conversion "+dec.Conv, "the 4-byte size is not sign-extended through int32 (null elements become huge lengths) or the 2-byte size is sign-extended")
 		}
-		r.Check(signed4 && unsigned2, rIf, "readCollectionSize: [int] sizes are signed (-1 = null), [short] sizes unsigned", "int32 / int", "the 4-byte size is not sign-extended through int32 (null elements become huge lengths) or the 2-byte size is sign-extended")
+		for _, v3 := range []bool{true, false} {
+			if !seenW[v3] || !seenR[v3] {
+				r.Unresolved("read/writeCollectionSize: no success path for protocol %s", ifs(v3, ">= 3", "<= 2"))
+			}
+		}
 	}
 }
 
